@@ -343,11 +343,19 @@ def _get_demographic_events(g, demes_demo_events, sampled_pops):
     for branch in demes_demo_events["branches"]:
         event = ("branch", branch.parent, branch.child)
         demo_events[branch.time].append(event)
+    def _ending(parents, time):
+        # Parents whose existence ends with this event: they end at this time and
+        # do not live on through a split at the same time.
+        return [p for p in parents if g[p].end_time == time
+                and not any(s.parent == p and s.time == time
+                            for s in demes_demo_events["splits"])]
     for merge in demes_demo_events["mergers"]:
-        event = ("merge", merge.parents, merge.proportions, merge.child)
+        event = ("merge", merge.parents, merge.proportions, merge.child,
+                 _ending(merge.parents, merge.time))
         demo_events[merge.time].append(event)
     for admix in demes_demo_events["admixtures"]:
-        event = ("admix", admix.parents, admix.proportions, admix.child)
+        event = ("admix", admix.parents, admix.proportions, admix.child,
+                 _ending(admix.parents, admix.time))
         demo_events[admix.time].append(event)
     for split in demes_demo_events["splits"]:
         event = ("split", split.parent, split.children)
@@ -648,11 +656,13 @@ def _apply_event(phi, xx, pop_ids, event, interval, sample_sizes, demes_present)
             # with some proportion
             # XXX: This should crash
             phi = _admix_phi(phi, xx, proportions, pop_ids, sources, dest)
-        if e == "merge":
-            for parent in parents:
-                remove_i = pop_ids.index(parent)
-                pop_ids.pop(remove_i)
-                phi = dadi.PhiManip.remove_pop(phi, xx, remove_i+1)
+        # remove the parents that end with this event (the parents of a merger
+        # that do not live on through a split at the same time; a parent of an
+        # admixture that ends at this time)
+        for parent in event[4]:
+            remove_i = pop_ids.index(parent)
+            pop_ids.pop(remove_i)
+            phi = dadi.PhiManip.remove_pop(phi, xx, remove_i+1)
     elif e == "pulses":
         # admixture from one population to another, with some proportion
         source = event[1]
